@@ -26,7 +26,7 @@ PRIMS = ['int', 'char', 'short', 'unsigned long', 'double', 'float', 'signed cha
 
 def generate(ctx):
     rng = ctx.rng('gen')
-    nh = ctx.scale(300, 20000)
+    nh = ctx.scale(300, 5000)
     per = 40
     seeds = [rng.getrandbits(48) for _ in range(nh)]
     return None, [{'seeds': seeds[i:i + per], 'steps': 80} for i in range(0, nh, per)]
